@@ -29,6 +29,8 @@ else:
             env = dict(os.environ, VERIF_EXTRA_OVERLAY=ov, VERIF_TIMEOUT_S="900")
             p = subprocess.run(["/verif/bin/vcheck", c, tier], capture_output=True, text=True, env=env)
             res[c] = (p.returncode, [l.strip() for l in p.stdout.split("\n") if "signature" in l][:3])
+            if os.environ.get("SEEDRUN_DEBUG"):
+                print(p.stdout[-3000:]); print(p.stderr[-1000:])
     finally:
         shutil.rmtree(d, ignore_errors=True)
 for c, (rc, sigs) in res.items():
